@@ -87,7 +87,131 @@ def c14(pid, tier, replay):
     return res.finish()
 
 
+def c15(pid, tier, replay):
+    from . import p_ct, p_ctrt
+    res = core.Result(pid, "model_checking", tier)
+    seed = core.seed()
+    thorough = tier == "thorough"
+    core.build_harness()
+    # (1) the once-cell protocol of first use, all interleavings of 3 threads
+    r = core.run_tlc("OnceInit", "OnceInit.cfg", {}, res.wd, timeout=600, workers=4)
+    res.add_tlc(r)
+    res.notes["once_init_model"] = dict(distinct=r["distinct"], threads=3)
+    if r["error"]:
+        res.violation("OnceInit.tla: " + r["error"][:300], dict(kind="mc"))
+    # (2) K independent processes (fresh hash seeds) must observe the same grammar, Pager
+    #     decisions, graph and table for every instance, all yacc kinds incl. Eco implicit tokens
+    K = 16 if thorough else 5
+    if replay:
+        with open(replay) as f:
+            insts = [json.load(f)["instance"]]
+    else:
+        insts = grammars(seed, 300 if thorough else 60)
+        rng = random.Random(seed)
+        for i in range(40 if thorough else 10):
+            d = genyacc.gen_doc(rng, kind="eco")
+            y, _ = genyacc.render(d, rng)
+            insts.append(dict(id="eco%d" % i, y=y, kind="eco"))
+        insts.append(dict(id="eco-implicit3", kind="eco", y="%start S\n%implicit_tokens 'w1' 'w2' 'w3' 'w4'\n%%\nS: 'a' S | 'b';\n"))
+    job = os.path.join(res.wd, "job.json")
+    with open(job, "w") as f:
+        json.dump(dict(instances=[dict(id=i["id"], y=i["y"], kind=i["kind"]) for i in insts]), f)
+
+    def one(k):
+        out = os.path.join(res.wd, "digest-%d.ndjson" % k)
+        core.run_vh(["digest", job, out])
+        return open(out).readlines()
+    with concurrent.futures.ThreadPoolExecutor(max_workers=min(K, 8)) as ex:
+        traces = list(ex.map(one, range(K)))
+    lines = [x for t in traces for x in t]
+    # (3) generated modules byte-identical (timestamp aside) across processes
+    gen_lines = []
+    gd = os.path.join(res.wd, "gen")
+    for gi, (gname, lname) in enumerate([("g1", "l1"), ("g2", "l2"), ("gwarn", "lextra"), ("gconfe", "l1")]):
+        for k in range(4 if thorough else 3):
+            d = os.path.join(gd, "g%d" % gi)
+            shutil_rm(d)
+            os.makedirs(d)
+            open(os.path.join(d, "g.y"), "w").write(p_ct.G[gname])
+            open(os.path.join(d, "l.l"), "w").write(p_ct.L[lname])
+            o = dict(p_ct.OPTS0)
+            o["wae"] = False
+            rr = p_ct.ctstep(d, None, "both", o)
+            gen_lines.append(json.dumps(dict(ev="built", id="generated-%s-%s" % (gname, lname), width=0, proc=k,
+                                             digest="%s|%s" % (rr["grammar_out"].get("digest"), rr.get("lexer_out", {}).get("digest")),
+                                             diff="generated parser|generated lexer")) + "\n")
+    lines += gen_lines
+    res.notes["processes"] = K
+    res.notes["instances"] = len(insts)
+    res.notes["generated_module_pairs"] = 4
+    if not replay:
+        e = json.loads(lines[0])
+        e2 = dict(e, digest=e["digest"] + "x", proc=-1)
+        v = p_src.validate(res, "TracePipe", 9000, [lines[0], json.dumps(e2) + "\n"], dict(PROP="C15"))
+        st = dict(rejected=len(v["devs"]) > 0, corruption="second process reports a different digest")
+        res.notes["binding_selftest"] = st
+        if not st["rejected"]:
+            raise core.ToolError("binding self-test failed")
+    v = p_src.validate(res, "TracePipe", 0, lines, dict(PROP="C15"))
+    res.add_tlc(v["r"])
+    byid = {i["id"]: i for i in insts}
+    for d in v["devs"]:
+        res.deviation(d, dict(instance=byid.get(d["inst"]), seed=seed))
+    if v["consumed"] != v["nlines"] and not v["r"]["timeout"]:
+        res.violation("trace rejected by the specification: " + (v["r"]["error"] or "")[:300], dict(tlc_out=v["r"]["out"][-1500:]))
+    res.cov["traces_validated_against_impl"] += len(lines)
+    # (4) first use of generated parsers from 8 threads at once, in fresh processes
+    rng = random.Random(seed * 31 + 15)
+    pairs = [p_ctrt.gen_pair(rng, i) for i in range(4)]
+    pairs = [p_ctrt.fix_pair(p) for p in pairs]
+    inputs = {p["id"]: [x for x in p_ctrt.gen_inputs(p, rng, 6) if x][:3] or ["a"] for p in pairs}
+    cd = os.path.join(res.wd, "ctgen")
+    p_ctrt.gen_crate(cd, pairs, inputs)
+    b = subprocess.run(["cargo", "build", "--offline", "--quiet"], cwd=cd, env=dict(os.environ, CARGO_NET_OFFLINE="true"),
+                       stdout=subprocess.PIPE, stderr=subprocess.STDOUT, text=True)
+    tl = []
+    rounds = 200 if thorough else 25
+    if b.returncode != 0:
+        res.notes["thread_rounds"] = 0
+        res.violation("the generated parsers did not build: " + b.stdout[-800:], dict(seed=seed))
+    else:
+        exe = os.path.join(core.HARNESS, "target", "debug", "ctgen")
+        tmp = os.path.join(res.wd, "ctgen-bin")
+        shutil.copy(exe, tmp)
+        for _ in range(rounds):
+            r2 = subprocess.run([tmp, "threads"], cwd=cd, stdout=subprocess.PIPE, stderr=subprocess.PIPE, text=True, timeout=120)
+            if r2.returncode != 0:
+                res.violation("concurrent first use crashed: " + r2.stderr[-500:], dict(seed=seed))
+                break
+            tl += [x + "\n" for x in r2.stdout.splitlines() if x.startswith('{"ev":"ctrt"') and '"input":"token' not in x and '"input":"rule' not in x]
+        res.notes["thread_rounds"] = rounds
+        res.notes["thread_results"] = len(tl)
+        if tl:
+            v2 = p_src.validate(res, "TraceCTRT", 1, tl, dict(PROP="C15"))
+            res.add_tlc(v2["r"])
+            for d in v2["devs"]:
+                d["prop"] = "C15"
+                res.deviation(d, dict(seed=seed, what="a thread's result differs from the sequential (run-time) result"))
+            res.cov["traces_validated_against_impl"] += len(tl)
+    shutil_rm(cd)
+    for i in insts[:2]:
+        res.sample(dict(id=i["id"], y=i["y"], kind=i["kind"]))
+    res.assumptions += ["thread schedules are sampled on the real code (exhaustive only in OnceInit.tla); std::sync::OnceLock is trusted",
+                        "hash seeds: each process gets fresh RandomState keys from the OS"]
+    return res.finish()
+
+
+def shutil_rm(d):
+    import shutil
+    shutil.rmtree(d, ignore_errors=True)
+
+
+import shutil  # noqa: E402
+
+
 def main(pid, tier, replay=None):
+    if pid == "C15":
+        return c15(pid, tier, replay)
     if pid == "C14":
         return c14(pid, tier, replay)
     raise core.ToolError("not built: " + pid)
